@@ -7,6 +7,7 @@ Section Precedence.
   Hypothesis Hsel : select_order = [b "func"; b "upstream"; b "pac"; b "default"].
   Hypothesis Hwr : wrappers = [b "direct-domains"; b "direct-localhost"].
   Hypothesis Hlh : localhost_direct_const = b "direct".
+  Hypothesis Hdd : direct_domains_maps_idna = true.
 
   Lemma select_base_spec cfg : select_base cfg select_order = spec_base cfg.
   Proof.
@@ -26,13 +27,19 @@ Section Precedence.
     unfold proxy_for, proxy_func, spec_proxy. rewrite select_base_spec, Hwr.
     cbn [fold_left].
     change (apply_wrapper cfg ?f (b "direct-domains")) with
-      (match c_direct cfg with Some pred => wrap_direct pred f | None => f end).
-    set (f1 := match c_direct cfg with Some pred => wrap_direct pred (spec_base cfg) | None => spec_base cfg end).
+      (match c_direct cfg with
+       | Some m => wrap_direct (fun h => m h || (direct_domains_maps_idna && m (c_idna cfg h))) f
+       | None => f end).
+    rewrite Hdd.
+    set (f1 := match c_direct cfg with
+               | Some m => wrap_direct (fun h => m h || (true && m (c_idna cfg h))) (spec_base cfg)
+               | None => spec_base cfg end).
     change (apply_wrapper cfg f1 (b "direct-localhost")) with
       (if str_eqb (c_lh_mode cfg) localhost_direct_const then wrap_direct (c_is_localhost cfg) f1 else f1).
     rewrite Hlh. subst f1. unfold direct_domain, localhost_direct.
-    destruct (spec_base cfg) as [f|]; destruct (c_direct cfg) as [pred|];
+    destruct (spec_base cfg) as [f|]; destruct (c_direct cfg) as [m|];
       destruct (str_eqb (c_lh_mode cfg) (b "direct")); cbn [wrap_direct andb]; try reflexivity;
-      try (destruct (pred (hostname t))); try (destruct (c_is_localhost cfg (hostname t))); reflexivity.
+      try (destruct (m (hostname t) || m (c_idna cfg (hostname t))));
+      try (destruct (c_is_localhost cfg (hostname t))); reflexivity.
   Qed.
 End Precedence.
